@@ -45,20 +45,46 @@ def is_cxx(beh):
     return any(s["a"] in CXX_ACTIONS for s in beh)
 
 
+def run_batched(exe, behs, timeout=900):
+    """Run behaviours in growing batches; stop early when a batch shows several faults
+    (every hang costs the alarm time).  Records are numbered by behaviour index."""
+    out = []
+    pos = 0
+    size = 20
+    faults = 0
+    while pos < len(behs):
+        part = behs[pos:pos + size]
+        recs, _ = vlib.run_driver(exe, vlib.to_script(part), timeout=timeout)
+        for r in recs:
+            if isinstance(r.get("b"), int):
+                r["b"] += pos
+            if r.get("a") in ("Crash", "Hang"):
+                faults += 1
+            out.append(r)
+        pos += len(part)
+        if faults >= 5:
+            break                      # the remaining behaviours are reported as not run
+        size = min(size * 10, 50000)
+    return out, pos
+
+
 def run_split(exes, behs, timeout=900):
-    """Run behaviours on the C or the C++ driver (by the actions they contain);
-    returns records renumbered to the behaviours' indices."""
+    """Run behaviours on the C or the C++ driver (by the actions they contain).
+    Returns (behaviours actually run, their records numbered accordingly)."""
+    ran = []
     out = []
     for want, exe in ((False, exes[0]), (True, exes[1])):
         idx = [i for i, b in enumerate(behs) if is_cxx(b) == want]
         if not idx:
             continue
-        recs, _ = vlib.run_driver(exe, vlib.to_script([behs[i] for i in idx]), timeout=timeout)
+        recs, done = run_batched(exe, [behs[i] for i in idx], timeout=timeout)
+        base = len(ran)
+        ran += [behs[i] for i in idx[:done]]
         for r in recs:
-            if isinstance(r.get("b"), int) and 0 <= r["b"] < len(idx):
-                r["b"] = idx[r["b"]]
-            out.append(r)
-    return out
+            if isinstance(r.get("b"), int) and 0 <= r["b"] < done:
+                r["b"] += base
+                out.append(r)
+    return ran, out
 
 
 def drop_prefixes(behs):
@@ -306,7 +332,7 @@ def run(tier):
         if lim != 65535:
             # the C++ classes have no seam for a scaled limit: their scaled design is model-checked only
             behs = [b for b in behs if not is_cxx(b)]
-        recs = run_split(exes, behs)
+        behs, recs = run_split(exes, behs)
         mms = vlib.compare(behs, recs)
         replayed += len(behs)
         mism += len(mms)
@@ -341,8 +367,8 @@ def run(tier):
     # 3. binding B: recorded executions validated by TLC against the meaning
     hist = gen_random(ck, cfg["nrand"])
     longs = gen_long(ck, cfg["nlong"])
-    recs_h = run_split(exes, hist)
-    recs_l = run_split(exes, longs, timeout=1200)
+    hist, recs_h = run_split(exes, hist)
+    longs, recs_l = run_split(exes, longs, timeout=1200)
     vlib.log("recorded %d + %d runs" % (len(hist), len(longs)))
     nev_h, _ = validate(ck, hist, recs_h, 65535, "Trace_Linepart-B", "B(trace)")
     vlib.log("validated random runs")
@@ -386,7 +412,7 @@ def replay(path):
         print(json.dumps(det, indent=1)[:4000])
         return 2
     exes = build()
-    recs = run_split(exes, [beh])
+    _, recs = run_split(exes, [beh])
     ck = vlib.Check(PID, "replay")
     ck.findings = []
     validate(ck, [beh], recs, det.get("limit", 65535), "Trace_Linepart-replay", det.get("binding", "replay"))
